@@ -641,6 +641,17 @@ func (t *Translator) doReturn(st *State, in *ssa.Return) {
 			continue
 		}
 		f, _ := env.Eval(c.E)
+		// a known finding pins this clause: it must still hold outside the recorded failing class (carve-out),
+		// so that a different violation of the same clause is reported
+		if kf := knownCarveOut(t.short + "#ensures." + c.Label); kf != nil {
+			ce, err := parseExprString(kf.CarveOut)
+			if err != nil {
+				panic("known_findings.json: carve_out of " + kf.ID + ": " + err.Error())
+			}
+			cv, _ := env.Eval(ce)
+			sub := st.clone()
+			t.oblige(sub, "ensures", c.Label+"!except-"+kf.ID, c.Tags, "(=> (not "+cv+") "+f+")", pos, "outside carve-out of "+kf.ID+": "+c.Src)
+		}
 		t.oblige(st, "ensures", c.Label, c.Tags, f, pos, c.Src)
 	}
 	t.implicitFrameCheck(st, "return", pos)
@@ -665,4 +676,20 @@ func (t *Translator) cover(st *State, what, pos string) {
 	}
 	t.vc.obs = append(t.vc.obs, &Obligation{Name: name, Kind: "cover", PC: st.pc, Goal: "true", Cover: true, Func: t.short, Pos: pos, vc: t.vc})
 	st.pcHasOb = true
+}
+
+var knownCache *KnownFile
+
+// knownCarveOut returns the known finding (with a carve-out) pinned to the given base obligation name.
+func knownCarveOut(base string) *KnownFinding {
+	if knownCache == nil {
+		knownCache = loadKnown()
+	}
+	for i := range knownCache.Findings {
+		k := &knownCache.Findings[i]
+		if k.Kind == "known" && k.Obligation == base && k.CarveOut != "" {
+			return k
+		}
+	}
+	return nil
 }
